@@ -29,7 +29,7 @@ def one(d):
         r = sh("git", "-C", wt, "apply", os.path.join(d, "patch.diff"))
         if r.returncode: return name, prop, "PATCH-DOES-NOT-APPLY", {}
         for p in props:
-            env = dict(os.environ, VERIF_REPO=wt, VERIF_OUT=out, VERIF_NPROC=str(max(4, 16 // jobs)))
+            env = dict(os.environ, VERIF_REPO=wt, VERIF_OUT=out, VERIF_NPROC=os.environ.get("VERIF_NPROC", str(max(4, 16 // jobs))))
             t = time.time()
             r = sh("/verif/check", p, "--tier", tier, env=env, timeout=7200)
             keys = [l.split("key=")[1].split(" ::")[0] for l in r.stdout.splitlines() if l.startswith("VIOLATION")]
